@@ -244,9 +244,19 @@ def serialize (m : Msg) : Bytes := serializeWith sendBlock m
 def serializeFile (blk rblk : Nat) (command : Bytes) (h : Dic) (content : Bytes) : Bytes :=
   headerBlock command (sentHeaders h) ++ writeFile (isChunked (sentHeaders h)) blk rblk content ++ endOf h
 
-/-- a handler streaming `parts` through `write(part)` one after the other (headers first) -/
+/-- whether `sendHeaders` chooses the chunked coding itself (75c75d0): a response written in pieces that names neither a
+length nor a coding; the library then announces the coding and ends the message -/
+def ownChunks (h : Dic) : Bool := !hasHeader h sContentLength && !hasHeader h sTransferEncoding
+
+/-- the header block `sendHeaders` emits for a response written in pieces -/
+def streamHeaders (h : Dic) : Dic :=
+  if ownChunks h then setHeader h sTransferEncoding sChunked else sentHeaders h
+
+/-- a handler streaming `parts` through `write(part)` one after the other (headers first); `fin`: the handler ends the
+stream by hand; a stream whose chunking was the library's choice is ended by the library (the server's closing `write()`) -/
 def serializeStream (blk : Nat) (command : Bytes) (h : Dic) (parts : List Bytes) (fin : Bool) : Bytes :=
-  headerBlock command (sentHeaders h) ++ (parts.map (writeBody (isChunked (sentHeaders h)) blk)).flatten ++ (if fin then lastChunk else [])
+  headerBlock command (streamHeaders h) ++ (parts.map (writeBody (isChunked (streamHeaders h)) blk)).flatten ++
+    (if fin || ownChunks h then lastChunk else [])
 
 /-! ## the connection as the reader sees it -/
 
@@ -464,6 +474,12 @@ def readRequest (i : Inp) : Request × Inp :=
         let res := (cmd.drop (a + 1)).take (b - (a + 1))
         let proto := trimmed (cmd.drop (b + 1))
         let (h, i2) := readHeaders i1 []
+        if hasHeader h sTransferEncoding ∧ teChunked (header h sTransferEncoding) = false then
+          -- a Transfer-Encoding whose last coding is not chunked: the length cannot be known, the connection is given up
+          -- before anything else is done (4dff910); the request has no path and is not dispatched
+          ({ method := method, resource := res, proto := proto, headers := h, body := [],
+             path := [], querystring := [], fragment := [] }, { i2 with closed := true })
+        else
         let (body, i3) := readBody h i2
         let (p, qs, fr) := splitTarget res
         ({ method := method, resource := res, proto := proto, headers := h, body := body,
@@ -718,6 +734,11 @@ def sockRead (sched : List Nat) (inc : Bytes) (size : Nat) : Bytes × Bool :=
 /-! ## `HttpServer::serve(Socket)` around the handler, and `Http::request` around the exchange -/
 
 def sMoved : Bytes := [109, 111, 118, 101, 100]   -- moved
+def sNotFound : Bytes := [78, 111, 116, 32, 102, 111, 117, 110, 100]   -- Not found
+def sTextPlain : Bytes := [116, 101, 120, 116, 47, 112, 108, 97, 105, 110]   -- text/plain
+
+/-- `if (!response.hasHeader(name)) response.setHeader(name, value)` -/
+def fillAbsent (h : Dic) (name value : Bytes) : Dic := if hasHeader h name then h else setHeader h name value
 
 inductive Kind where
   | none
@@ -726,6 +747,8 @@ inductive Kind where
   | file (content : Bytes) (ext : Bytes)      -- `put(File)`
   | stream (parts : List Bytes) (fin : Bool)  -- `write(part)` repeatedly, then the last chunk by hand
   | redirect (loc : Bytes) (b : Bytes)        -- `Location` unless the request target is `loc`
+  | streamAuto (parts : List Bytes)           -- `write(part)` repeatedly with no framing header set: the library announces and ends the chunks
+  | missing                                   -- `put(File)` of a file that does not exist
   | redirectRel (loc rel : Bytes) (b : Bytes) -- `Location: rel` verbatim (none when empty) and a 5-byte body, unless the request target is `loc`
 deriving Repr, Inhabited
 
@@ -746,7 +769,6 @@ def sDate : Bytes := [68, 97, 116, 101]
 def sCacheControl : Bytes := [67, 97, 99, 104, 101, 45, 67, 111, 110, 116, 114, 111, 108]
 def sCacheValue : Bytes := [109, 97, 120, 45, 97, 103, 101, 61, 54, 48, 44, 32, 112, 117, 98, 108, 105, 99]
 def sAppJson : Bytes := [97, 112, 112, 108, 105, 99, 97, 116, 105, 111, 110, 47, 106, 115, 111, 110]
-def sTextPlain : Bytes := [116, 101, 120, 116, 47, 112, 108, 97, 105, 110]
 def sBytesEq : Bytes := [98, 121, 116, 101, 115, 61]
 def sStar : Bytes := [42]
 
@@ -822,12 +844,21 @@ def serveOne (blk rblk : Nat) (optionsDefault : Bool) (q : Request) (p : Plan) (
     | .stream parts fin =>
       let h := setHeader h sTransferEncoding sChunked
       { called := true, wire := serializeStream blk (statusLine proto p.code) h parts fin, keep := keep }
+    | .streamAuto parts =>
+      { called := true, wire := serializeStream blk (statusLine proto p.code) h parts false, keep := keep }
+    | .missing =>
+      -- 404 "Not found" as an ordinary body; the connection is kept or closed as after any other response (f26c43e)
+      let h := allow p.code h
+      let h := setHeader h sContentType sTextPlain
+      let h := setHeader h sContentLength [57]
+      { called := true, wire := serializeWith blk { command := statusLine proto 404, headers := h, body := sNotFound }, keep := keep }
     | .file content ext =>
       let n := content.length
       let h := allow p.code h
-      let h := setHeader h sDate [68]
-      let h := setHeader h sContentType (mimeOf ext)
-      let h := if hasHeader h sCacheControl then h else setHeader h sCacheControl sCacheValue
+      -- Date and Content-Type are filled in only when the handler set none (71fbc0b), like Cache-Control
+      let h := fillAbsent h sDate [68]
+      let h := fillAbsent h sContentType (mimeOf ext)
+      let h := fillAbsent h sCacheControl sCacheValue
       let whole (code : Nat) (h : Dic) : Served :=
         let h := setHeader h sContentLength (utoa n)
         { called := true, wire := serializeFile blk rblk (statusLine proto code) h content, keep := keep }
@@ -874,7 +905,9 @@ def headClosed (i : Inp) : Bool :=
     | some a =>
       match indexOfFrom 32 cmd (a + 1) with
       | none => false
-      | some _ => (readHeaders i1 []).2.closed
+      | some _ =>
+        let r := readHeaders i1 []
+        r.2.closed || (hasHeader r.1 sTransferEncoding && !teChunked (header r.1 sTransferEncoding))
 
 /-- one turn of `serve(Socket)`'s loop: (request given to the handler, bytes written back, connection kept, rest) -/
 def serveStep (opt : Bool) (base : Bytes) (p : Plan) (i : Inp) : Option Request × Bytes × Bool × Inp :=
